@@ -1,4 +1,4 @@
-# outside the accepted subset (fail closed): the append loop written as extend + comprehension (same meaning)
+# harmless: the append loop written as extend + comprehension (same meaning; was outside the subset before T5r, now accepted)
 import sys; import os; sys.path.insert(0, os.path.dirname(os.path.abspath(__file__))); import t5edit
 p='lib_guesser/pcfg_grammar.py'
 old = """                for replacement in item['replacements']:
